@@ -281,6 +281,8 @@ pub struct World {
     pub last_commit_aead: Vec<AeadSealRec>,
     /// last key package generated by each party (encoded MlsMessage)
     pub last_kp: BTreeMap<usize, Vec<u8>>,
+    /// every key package a party has published through `key_package` (a client may be proposed twice)
+    pub all_kps: BTreeMap<usize, Vec<Vec<u8>>>,
     /// second instances of members, loaded from a copy of their storage, fed the same incoming
     /// messages as long as the member only receives (C06 lockstep oracle)
     pub twins: BTreeMap<usize, Twin>,
@@ -288,6 +290,10 @@ pub struct World {
     pub twin_checks: u64,
     /// identity listed in the group's ExternalSendersExt at creation (C16)
     pub external_sender: Option<(SignatureSecretKey, SigningIdentity)>,
+    /// further entries of the external senders list: [0] goes in front of the real one, the rest behind it
+    pub external_sender_decoys: Vec<SigningIdentity>,
+    /// the group context requires support for the harness extension EXT_TYPE (RequiredCapabilities)
+    pub require_ext: bool,
 }
 
 pub struct Twin {
@@ -354,10 +360,13 @@ impl World {
             last_commit_hpke: vec![],
             last_commit_aead: vec![],
             last_kp: BTreeMap::new(),
+            all_kps: BTreeMap::new(),
             twins: BTreeMap::new(),
             twin_failure: None,
             twin_checks: 0,
             external_sender: None,
+            external_sender_decoys: vec![],
+            require_ext: false,
         }
     }
 
@@ -511,9 +520,24 @@ impl World {
         let t = self.now();
         let mut ext = ExtensionList::new();
         ext.set(Extension::new(EXT_TYPE.into(), vec![1, 2, 3]));
+        if self.require_ext {
+            use mls_rs::extension::MlsExtension;
+            let rc = mls_rs::extension::built_in::RequiredCapabilitiesExt::new(vec![EXT_TYPE.into()], vec![], vec![]);
+            ext.set(rc.into_extension().expect("required capabilities ext"));
+        }
         if let Some((_, id)) = &self.external_sender {
             use mls_rs::extension::MlsExtension;
-            let es = mls_rs::extension::built_in::ExternalSendersExt::new(vec![id.clone()]);
+            // optionally the real entry is not the first one carrying its credential: an older key of the same service
+            // identity is still listed in front of it, and an unrelated sender behind it
+            let mut senders = vec![];
+            for (i, d) in self.external_sender_decoys.iter().enumerate() {
+                if i == 0 {
+                    senders.push(d.clone());
+                }
+            }
+            senders.push(id.clone());
+            senders.extend(self.external_sender_decoys.iter().skip(1).cloned());
+            let es = mls_rs::extension::built_in::ExternalSendersExt::new(senders);
             ext.set(es.into_extension().expect("external senders ext"));
         }
         let party = &mut self.parties[p];
@@ -537,6 +561,7 @@ impl World {
         let kp = guard(|| party.client.generate_key_package_message(kp_ext, ExtensionList::default(), Some(t)))?;
         let bytes = kp.to_bytes().map_err(|e| OpErr::Mls(format!("{e:?}")))?;
         self.log_wire("key_package", &bytes);
+        self.all_kps.entry(p).or_default().push(bytes.clone());
         self.last_kp.insert(p, bytes);
         Ok(kp)
     }
